@@ -723,12 +723,55 @@ pub fn validity_phase() -> Stats {
     st
 }
 
+/// client certificates carrying the Modbus role extension twice (minted at run time): in
+/// authorization mode "the role is exactly the single role extension" leaves no role to pick
+pub fn two_roles_phase() -> Stats {
+    let mut st = Stats::default();
+    for (k, roles) in [("operator", "operator"), ("operator", "observer"), ("observer", "operator")].into_iter().enumerate() {
+        let tag = format!("two-roles-{k}");
+        let minted = match mint_two_roles("cli_operator", "ca_a", roles, &tag) {
+            Ok(n) => n,
+            Err(e) => {
+                st.violation(Violation { signature: "MACHINERY:mint".into(), summary: format!("two roles {roles:?}: {e}"), replay: json!({}) });
+                continue;
+            }
+        };
+        let minted: &'static str = Box::leak(minted.into_boxed_str());
+        for authz in [true, false] {
+            for peer in [PeerVersions::Tls12Only, PeerVersions::Tls13Only] {
+                // ctor 8 marks these cells; CertKind::Valid so that only the override differs
+                let cell = Cell { min13: false, self_signed: false, authz, rodbus_is_server: true, peer, cert: CertKind::Valid, spawn: false, ctor: 8 };
+                CERT_OVERRIDE.lock().unwrap().retain(|x| x.0 != cell);
+                CERT_OVERRIDE.lock().unwrap().push((cell, "ca_a", minted));
+                // without authorization nobody reads the extension: the certificate is as good as any
+                let e = Expectation { admitted: !authz, role: None };
+                st.evaluations += 1;
+                st.class("two-role-extensions");
+                match rt().block_on(run_cell(&cell)) {
+                    Err(err) => st.violation(Violation { signature: "MACHINERY:cell-error".into(), summary: format!("{cell:?} {tag}: {err}"), replay: json!({}) }),
+                    Ok(o) => {
+                        st.observe(&(authz, peer, roles, o.admitted, &o.roles_seen));
+                        for (sig, desc) in judge(&cell, &e, &o) {
+                            st.violation(Violation {
+                                signature: format!("{sig}:two-role-extensions"),
+                                summary: format!("server {} authorization, client certificate with two role extensions {roles:?}, peer {peer:?}: {desc}", if authz { "with" } else { "without" }),
+                                replay: json!({"kind": "c09-two-roles"}),
+                            });
+                        }
+                    }
+                }
+            }
+        }
+    }
+    st
+}
+
 pub fn check_c09(tier: &str) -> i32 {
     let mut rep = Report::new(
         "C09",
         tier,
         "exploration",
-        "the whole configuration grid {min version 1.2, 1.3} x {authority, self-signed} x {with, without authorization} x {rodbus is client, server} x peer offers {TLS1.2 only, TLS1.3 only, both} x peer certificate {valid, wrong authority, wrong name, expired, not yet valid, role-less, differently roled} = 336 cells over real loopback sockets: the rodbus endpoint is built with the unmodified public API, the peer is an independent rustls endpoint with explicit protocol versions and a permissive verifier, so the verdict is rodbus' alone; admission is judged by an answered Modbus request, the negotiated version by the peer, the role by an authorization handler; cells that are not meaningful are listed as n/a; per server configuration two more peers send Modbus bytes instead of / in the middle of the handshake; outside the grid: a certificate issued by the pinned self-signed certificate, certificates with the pinned certificate's subject / subject and key but other bytes, client chains in which an unrelated certificate carrying another role follows the client certificate, and client configurations built with the legacy constructor, without an expected server name, with an IP literal as the expected name and with five strings that are neither (\"*\", \"\", \"*.com\", \"test.com:802\", \"test com\"); a client certificate whose role has a leading blank and a capital letter; certificates whose validity begins or ends within two minutes of now (minted at run time); one resuming rustls client against two servers of the same process that trust different authorities / pin different certificates. distinct = distinct (cell, observation) pairs",
+        "the whole configuration grid {min version 1.2, 1.3} x {authority, self-signed} x {with, without authorization} x {rodbus is client, server} x peer offers {TLS1.2 only, TLS1.3 only, both} x peer certificate {valid, wrong authority, wrong name, expired, not yet valid, role-less, differently roled} = 336 cells over real loopback sockets: the rodbus endpoint is built with the unmodified public API, the peer is an independent rustls endpoint with explicit protocol versions and a permissive verifier, so the verdict is rodbus' alone; admission is judged by an answered Modbus request, the negotiated version by the peer, the role by an authorization handler; cells that are not meaningful are listed as n/a; per server configuration two more peers send Modbus bytes instead of / in the middle of the handshake; outside the grid: a certificate issued by the pinned self-signed certificate, certificates with the pinned certificate's subject / subject and key but other bytes, client chains in which an unrelated certificate carrying another role follows the client certificate, and client configurations built with the legacy constructor, without an expected server name, with an IP literal as the expected name and with five strings that are neither (\"*\", \"\", \"*.com\", \"test.com:802\", \"test com\"); a client certificate whose role has a leading blank and a capital letter; certificates whose validity begins or ends within two minutes of now and client certificates carrying the role extension twice (both minted at run time); one resuming rustls client against two servers of the same process that trust different authorities / pin different certificates. distinct = distinct (cell, observation) pairs",
     );
     let thorough = rep.thorough();
     let mut cells = all_cells(false);
@@ -827,8 +870,11 @@ pub fn check_c09(tier: &str) -> i32 {
     }
     rep.phase("grid", st, json!({}));
     let st = validity_phase();
-    cleanup_minted();
     rep.phase("validity periods beginning / ending within two minutes of now", st, json!({}));
+    let st = two_roles_phase();
+    cleanup_minted();
+    rep.phase("client certificates carrying the role extension twice (minted at run time)", st, json!({"certificates": 3}));
+    rep.require_class("two-role-extensions");
     // session resumption across two differently configured servers of one process
     {
         let mut st = Stats::default();
@@ -885,6 +931,9 @@ pub fn check_c09(tier: &str) -> i32 {
 }
 
 pub fn replay_c09(v: &serde_json::Value) -> Vec<(String, String)> {
+    if v["kind"] == "c09-two-roles" {
+        return two_roles_phase().violations_as_pairs();
+    }
     if v["kind"] == "c09-validity" {
         return validity_phase().violations_as_pairs();
     }
